@@ -45,7 +45,7 @@ PROP_MODULE = "EmuVerif.Props.C15"
 AUDIT = "Audit/C15.lean"
 EIG = {2: ("r", "g"), 3: ("g", "r", "x")}
 FWER = 1e-6          # family-wise error of all statistical tests of one run
-N_STAT_TESTS = 512   # Bonferroni denominator: upper bound on the number of tests of one run (thorough: 200, + search)
+N_STAT_TESTS = 1024  # Bonferroni denominator: upper bound on the number of tests of one run (thorough: 200, + search)
 
 
 def _imports():
@@ -368,7 +368,8 @@ def run_correspondence(rep: Report, lines, cmps) -> None:
 
 
 # =============================================================================== oracle (real RNG)
-ORACLE_KINDS = ["structure_mps", "structure_sv", "order", "readout_det", "chi2_mps", "chi2_sv", "chi2_dm", "readout_stat"]
+ORACLE_KINDS = ["structure_mps", "structure_sv", "order", "readout_det", "chi2_mps", "chi2_sv", "chi2_dm", "readout_stat",
+                "resample", "run_bitstrings"]
 
 
 def _chi2_reject(obs: dict, probs: dict, N: int, alpha: float):
@@ -498,6 +499,88 @@ def oracle_case(kind: str, cs: int):
             c = st.sample(num_shots=40)
             if dict(c) != {want: 40}:
                 bad(f"{type(st).__name__} basis state {bits}: sampled {dict(c)}", bits=bits)
+    elif kind == "resample":
+        # the distribution is that of the CURRENT amplitudes: sample, modify the state object, sample again
+        n = rng.randint(1, 6)
+        i1, i2 = rng.sample(range(2 ** n), 2) if n > 0 else (0, 1)
+        e = lambda i: torch.nn.functional.one_hot(torch.tensor(i), 2 ** n).to(tu.DT)
+        key = lambda i: format(i, f"0{n}b")
+        for how in ("reassign", "inplace"):
+            st = StateVector(e(i1).clone(), gpu=False)
+            c1 = dict(st.sample(num_shots=30))
+            if how == "reassign":
+                st.data = e(i2).clone()          # what emu-sv does after every step
+            else:
+                st.data[i1], st.data[i2] = 0.0, 1.0
+            c2 = dict(st.sample(num_shots=30))
+            if c1 != {key(i1): 30} or c2 != {key(i2): 30}:
+                bad(f"StateVector: sampled {c1} for |{key(i1)}⟩, then after {how} to |{key(i2)}⟩ sampled {c2}", how=how)
+            dm = DensityMatrix(torch.outer(e(i1), e(i1)), gpu=False)
+            c1 = dict(dm.sample(num_shots=30))
+            if how == "reassign":
+                dm.data = torch.outer(e(i2), e(i2))
+            else:
+                dm.data[i1, i1], dm.data[i2, i2] = 0.0, 1.0
+            c2 = dict(dm.sample(num_shots=30))
+            if c1 != {key(i1): 30} or c2 != {key(i2): 30}:
+                bad(f"DensityMatrix: sampled {c1} for |{key(i1)}⟩, then after {how} to |{key(i2)}⟩ sampled {c2}", how=how)
+        d, m = rng.choice([2, 3]), rng.randint(2, 6)
+        lv = [rng.randrange(2) for _ in range(m)]
+        fs = []
+        for x in lv:
+            t = torch.zeros(1, d, 1, dtype=tu.DT)
+            t[0, x, 0] = 1.0
+            fs.append(t)
+        st = MPS(fs, eigenstates=EIG[d], num_gpus_to_use=0)
+        c1 = dict(st.sample(num_shots=30))
+        q = rng.randrange(m)
+        flip = torch.zeros(d, d, dtype=tu.DT)
+        flip[0, 1] = flip[1, 0] = 1.0
+        st.apply(q, flip)
+        lv2 = list(lv)
+        lv2[q] = 1 - lv2[q]
+        c2 = dict(st.sample(num_shots=30))
+        w1, w2 = "".join(map(str, lv)), "".join(map(str, lv2))
+        if c1 != {w1: 30} or c2 != {w2: 30}:
+            bad(f"MPS: sampled {c1} for |{w1}⟩, then after apply(σx on {q}) sampled {c2} instead of {{{w2!r}: 30}}")
+        # random states: χ² against the current amplitudes after a re-assignment
+        n = rng.randint(1, 4)
+        v1 = (torch.randn(2 ** n, dtype=torch.float64, generator=g) + 1j * torch.randn(2 ** n, dtype=torch.float64, generator=g)).to(tu.DT)
+        v2 = (torch.randn(2 ** n, dtype=torch.float64, generator=g) + 1j * torch.randn(2 ** n, dtype=torch.float64, generator=g)).to(tu.DT)
+        st = StateVector(v1, gpu=False)
+        st.sample(num_shots=10)
+        st.data = v2
+        c = st.sample(num_shots=20000)
+        rej, stat, df = _chi2_reject(dict(c), bits_probs(v2, n, 2), 20000, alpha)
+        if rej:
+            bad(f"StateVector re-sampled after its data changed: χ²={stat:.1f} ({df} d.o.f.) rejects the CURRENT distribution at {alpha:.1e}")
+    elif kind == "run_bitstrings":
+        # a back-end run with BitStrings at two evaluation times: π/2 at half time, π at the end (non-interacting atoms)
+        from harness import compat
+        import pulser.backend as pb
+        n = rng.randint(2, 3)
+        steps, T = 4, 100.0
+        om = [[math.pi / (T * 1e-3)] * n for _ in range(steps)]
+        zero = [[0.0] * n for _ in range(steps)]
+        U = [[0.0] * n for _ in range(n)]
+        tt = [T * k / steps for k in range(steps + 1)]
+        N = 2000
+        for backend in ("sv", "mps"):
+            data = compat.make_sequence_data(om, zero, zero, U, tt)
+            obs = [pb.BitStrings(evaluation_times=[0.5, 1.0], num_shots=N), pb.Occupation(evaluation_times=[0.5, 1.0])]
+            r = compat.run_sv(data, compat.sv_config(observables=obs, dt=10)) if backend == "sv" else \
+                compat.run_mps(data, compat.mps_config(observables=obs, dt=10, precision=1e-10))
+            for t in (0.5, 1.0):
+                bits = dict(r.get_result("bitstrings", t))
+                occ = [complex(x).real for x in torch.as_tensor(r.get_result("occupation", t)).tolist()]
+                if sum(bits.values()) != N:
+                    bad(f"{backend} run: {sum(bits.values())} bitstrings at t={t} instead of {N}")
+                for i in range(n):
+                    k1 = sum(c for s_, c in bits.items() if s_[i] == "1")
+                    p = min(1.0, max(0.0, occ[i]))
+                    if (p > 1 - 1e-9 and k1 != N) or (p < 1e-9 and k1 != 0) or (1e-9 <= p <= 1 - 1e-9 and _binom_reject(k1, N, p, alpha)):
+                        bad(f"{backend} run: atom {i} reads '1' in {k1}/{N} bitstrings at t={t}, its occupation then is {p:.6f}", t=t)
+                        break
     elif kind == "readout_det":
         n = rng.randint(1, 6)
         bits = "".join(rng.choice("01") for _ in range(n))
@@ -606,8 +689,8 @@ def run_oracle(rep: Report, rng, count: int, first_only=False) -> None:
                                                                   "trace": traceback.format_exc()[-600:]}, None)]
         rep.case(key=("oracle", kind, cs), nontrivial=True, trace=False)
         rep.hist("oracle_kind", kind)
-        if kind.startswith("chi2") or kind == "readout_stat":
-            rep.count("statistical_tests", 2 if kind == "readout_stat" else 1)
+        if kind.startswith("chi2") or kind in ("readout_stat", "resample", "run_bitstrings"):
+            rep.count("statistical_tests", {"readout_stat": 2, "run_bitstrings": 12}.get(kind, 1))
         for msg, data, klass in fails:
             rep.fail(msg, data, klass=klass)
         if first_only and fails:
@@ -620,7 +703,7 @@ def check(rep: Report, tier: str, seed: int) -> None:
                 "qr runs), state vectors / density matrices with Pythagorean entries, shot counts 1…20000 incl. 31/32/33/63/64/65 "
                 "and 4095/4096/4097, rates ∈ {0, 1, .01, .25, .5, random}, uniform draws from a lattice hitting u == p, one ulp "
                 "below p and 0.0; torch.multinomial answered by inverse-CDF on the weights it receives; Counters compared as "
-                "dicts, weights to 1e-14 relative (vector_norm**2). statistical tests: Bonferroni level 1e-6/512 each, torch/random seeded from the case "
+                "dicts, weights to 1e-14 relative (vector_norm**2). statistical tests: Bonferroni level 1e-6/1024 each, torch/random seeded from the case "
                 "seed (deterministic per VERIF_SEED). non-trivial = every case")
     rep.assumptions = [
         "torch.multinomial(w): index x with probability w_x/Σw, rows and draws independent (validated by χ² at family-wise error 1e-6)",
@@ -642,7 +725,7 @@ def check(rep: Report, tier: str, seed: int) -> None:
         rep.broke("correspondence generation: real code raised " + traceback.format_exc()[-700:])
     if lines:
         run_correspondence(rep, lines, cmps)
-    run_oracle(rep, rng, 32 if tier == "quick" else 320)
+    run_oracle(rep, rng, 40 if tier == "quick" else 400)
     rep.extra["stat_level_per_test"] = FWER / N_STAT_TESTS
     if rep.broken and not rep.unknown_failing():
         search(rep, seed, 160 if tier == "quick" else 1600)
